@@ -26,6 +26,8 @@ pub fn check(tier: Tier) -> Check {
     for r in [1u64, 2] {
         parts.push(Part::new("C10/quota", json!({"depth": tier.pick(5, 6), "r": r, "flavour": 2}), 0, tier.pick(25, 400)));
     }
+    // a Maximum Packet Size as well: a locally refused oversized publish must not take a slot
+    parts.push(Part::new("C10/quota", json!({"depth": tier.pick(5, 7), "r": 2, "m": 40}), 0, tier.pick(25, 400)));
     parts.push(Part::new("C10/fill", json!({"r": 65535}), 0, 120));
     parts.push(Part::new("C10/fill", json!({"r": 0}), 0, 120));
     parts.push(Part::new("C10/fill", json!({"r": 300}), 0, 120));
@@ -33,7 +35,7 @@ pub fn check(tier: Tier) -> Check {
         also_rel: false,
         property: "C10",
         level: "model_checking",
-        rule: "R in {1,2,3} (announced in a bare CONNACK, and with Session Present = 1 among many other CONNECT/CONNACK settings): all histories of QoS 0/1/2 publishes, acknowledgements (success and failing, any outstanding publish) and pings up to the stated depth; R in {65535, absent, 300}: deterministic fill - refuse - drain - refill runs through the real client; accept/refuse decisions and the wire must equal the model's; non-trivial = a publish was refused for quota or a slot was freed by a failing acknowledgement".into(),
+        rule: "R in {1,2,3} (announced in a bare CONNACK, and with Session Present = 1 among many other CONNECT/CONNACK settings): all histories of QoS 0/1/2 publishes, pings, subscribes, unsubscribes and acknowledgements (0x00, 0x10 and failing, for any outstanding operation) up to the stated depth; R in {65535, absent, 300}: deterministic fill - refuse - drain - refill runs through the real client; accept/refuse decisions and the wire must equal the model's; non-trivial = a publish was refused for quota or a slot was freed by a failing acknowledgement".into(),
         assumptions: vec!["conformant broker".into()],
         parts,
     }
@@ -104,13 +106,25 @@ pub fn scenario(name: &str, params: &Value) -> Scenario {
     Box::new(move |chz, ex| {
         let mut sys = Sys::new("C10", &name, chz);
         sys.params = params.clone();
-        sys.bring_up_fl(receive_max(r), params["flavour"].as_u64().unwrap_or(0));
-        let specs = vec![
+        let m = params["m"].as_u64();
+        let mut cprops = receive_max(r);
+        if let Some(m) = m {
+            cprops.push(pvcore::refcodec::Prop::u32(pvcore::refcodec::P_MAXIMUM_PACKET_SIZE, m as u32));
+        }
+        sys.bring_up_fl(cprops, params["flavour"].as_u64().unwrap_or(0));
+        let mut specs = vec![
             OpSpec::Publish(PublishSpec::simple(0, "t", b"q0")),
             OpSpec::Publish(PublishSpec::simple(1, "t", b"q1")),
             OpSpec::Publish(PublishSpec::simple(2, "t", b"q2")),
             OpSpec::Ping,
+            // other operations neither take nor give back a slot
+            OpSpec::Subscribe(SubscribeSpec::simple("s")),
+            OpSpec::Unsubscribe(UnsubscribeSpec::simple("s")),
         ];
+        if m.is_some() {
+            specs.push(OpSpec::Publish(PublishSpec::simple(1, "t", &[b'x'; 100])));
+            specs.push(OpSpec::Publish(PublishSpec::simple(2, "t", &[b'y'; 100])));
+        }
         let devs = |s: &Sys| sched_deviations(s, true, false);
         let evs = |s: &Sys| {
             let mut e = vec![];
